@@ -164,6 +164,12 @@ func (fs *FileSystemOperation) SaveGatewayConfig(content []byte) error {
 }
 
 func (fs *FileSystemOperation) SaveMetricsConfig(content []byte) error {
+	// The user's metrics file is the one Backup, Restore and CleanMetricsConfigFile work on.
+	// GetMetricsConfigFilePath falls back to the shipped default file while the user file does
+	// not exist yet: writing there overwrote the default and was not undone by Restore.
+	if userPath := fs.files[metricsConfigFileKey]; userPath != "" {
+		return fs.storeFileOnDisk(userPath, content)
+	}
 	return fs.storeFileOnDisk(environment.GetMetricsConfigFilePath(), content)
 }
 
